@@ -88,6 +88,8 @@ type Engine struct {
 	freshMerges int
 	splitAt     *ssa.If
 	volatile    map[*Cell]bool
+	mergedCell  map[string]*Cell   // mergedptr name -> the stand-in object its dereferences read
+	mergedOf    map[*Cell][]*Cell  // candidate object -> stand-in objects that may alias it
 	trustedUsed map[string]bool
 	havocked    map[string]bool
 	recDefs     map[string]bool
@@ -638,7 +640,32 @@ func (e *Engine) materialise(st *State, p PtrV, reach string, pos token.Pos) Ptr
 		e.oblige("nopanic", "nil-deref", reach, not(p.Nil), pos)
 	}
 	if p.Cell == nil && strings.HasPrefix(p.Name, "mergedptr!") {
-		panic(unsupported{"dereference of a pointer that may point to two different objects"})
+		// A pointer that may point to one of several objects is dereferenced through a stand-in object with unknown
+		// contents. From now on the candidate objects are volatile (every read of them is unconstrained: they may be
+		// written through the stand-in), and a direct write to a candidate forgets the stand-in. Sound, imprecise.
+		if !e.cfg.Effects || len(p.Cands) == 0 {
+			panic(unsupported{fmt.Sprintf("dereference of a pointer that may point to two different objects (effects=%v cands=%d %s)", e.cfg.Effects, len(p.Cands), p.Name)})
+		}
+		if e.mergedCell == nil {
+			e.mergedCell = map[string]*Cell{}
+			e.mergedOf = map[*Cell][]*Cell{}
+		}
+		c := e.mergedCell[p.Name]
+		if c == nil {
+			c = e.newCell(p.Elem, p.Name)
+			e.mergedCell[p.Name] = c
+			if stt, isStruct := p.Elem.Underlying().(*types.Struct); isStruct {
+				e.inputCells[c] = StructV{Typ: stt, F: make([]Val, stt.NumFields()), Sym: clean(p.Name)}
+			} else {
+				panic(unsupported{"dereference of a merged non-struct pointer"})
+			}
+			for _, cand := range p.Cands {
+				e.volatile[cand] = true
+				e.mergedOf[cand] = append(e.mergedOf[cand], c)
+			}
+			e.note("pointer to one of several objects dereferenced through a stand-in object (candidates become volatile)")
+		}
+		p.Cell = c
 	}
 	if p.Cell == nil {
 		c := e.ptrCell[p.Name]
@@ -666,6 +693,9 @@ func (e *Engine) materialise(st *State, p PtrV, reach string, pos token.Pos) Ptr
 func (e *Engine) load(st *State, addr Val, t types.Type, reach string, pos token.Pos) Val {
 	switch a := addr.(type) {
 	case AddrV:
+		if a.Nil != "" && e.cfg.NoPanic {
+			e.oblige("nopanic", "nil-deref", reach, not(a.Nil), pos)
+		}
 		if e.volatile[a.Cell] {
 			return e.symbolic(st, t, a.Cell.Name+"_vol")
 		}
@@ -698,6 +728,7 @@ func (e *Engine) store(st *State, addr Val, v Val, reach string, pos token.Pos) 
 	switch a := addr.(type) {
 	case AddrV:
 		st.cells[a.Cell] = e.setPath(st.cells[a.Cell], a.Path, v)
+		e.forgetStandIns(st, a.Cell)
 	case ElemAddrV:
 		e.arrWrite(st, a.Arr, a.Idx, fieldType(a.Arr.Elem, a.Path), pathKey(a.Path), v)
 	case OptV:
@@ -711,8 +742,17 @@ func (e *Engine) store(st *State, addr Val, v Val, reach string, pos token.Pos) 
 	case PtrV:
 		a = e.materialise(st, a, reach, pos)
 		st.cells[a.Cell] = v
+		e.forgetStandIns(st, a.Cell)
 	case OpaqueV:
 		e.note("store through untracked pointer dropped at " + e.fset.Position(pos).String())
+	}
+}
+
+// forgetStandIns: a write to an object that a merged pointer may point to is visible through the merged pointer.
+func (e *Engine) forgetStandIns(st *State, c *Cell) {
+	for _, m := range e.mergedOf[c] {
+		st.cells[m] = e.symbolic(st, m.Typ, m.Name+"_alias")
+		delete(e.inputCells, m)
 	}
 }
 
@@ -1127,6 +1167,22 @@ func (e *Engine) binop(st *State, op token.Token, x, y Val, t types.Type, xT, yT
 					return cmp(a.Nil, b.Nil)
 				}
 			}
+			// a snapshot of a pointer compared with that pointer itself (an argument that is a result of an earlier call)
+			originOf := func(p PtrV) string {
+				if p.Cell != nil {
+					if o, ok := e.snapOrigin[p.Cell]; ok {
+						return o
+					}
+					if c := e.ptrCell[p.Name]; c == p.Cell && p.Name != "" {
+						return p.Name
+					}
+					return fmt.Sprintf("cell/%d", p.Cell.id)
+				}
+				return p.Name
+			}
+			if oa, ob := originOf(a), originOf(b); oa != "" && oa == ob && oa != "snap" && !strings.HasPrefix(oa, "mergedptr!") {
+				return cmp(a.Nil, b.Nil)
+			}
 			// pointers read from containers are identified by the opaque term they were read as
 			ta, okA := e.boxedTerm[a.Name]
 			tb, okB := e.boxedTerm[b.Name]
@@ -1217,7 +1273,14 @@ func (e *Engine) binop(st *State, op token.Token, x, y Val, t types.Type, xT, yT
 			return false
 		}
 		if xa && isNil(y) || ya && isNil(x) {
-			return nilCmp(op, "false")
+			n := "false"
+			if av, ok := x.(AddrV); ok && xa && av.Nil != "" {
+				n = av.Nil
+			}
+			if av, ok := y.(AddrV); ok && ya && !xa && av.Nil != "" {
+				n = av.Nil
+			}
+			return nilCmp(op, n)
 		}
 	}
 	// pointer into a slice (&s[i]) compared with nil
@@ -1763,9 +1826,22 @@ func (e *Engine) havocPointee(st *State, v Val, name string) {
 				x.Cell = c
 			}
 		}
+		if x.Cell == nil && len(x.Cands) > 0 {
+			for _, cand := range x.Cands {
+				st.cells[cand] = e.symbolic(st, cand.Typ, cand.Name+"_lh")
+				delete(e.inputCells, cand)
+				e.forgetStandIns(st, cand)
+			}
+			if c := e.mergedCell[x.Name]; c != nil {
+				st.cells[c] = e.symbolic(st, c.Typ, c.Name+"_lh")
+				delete(e.inputCells, c)
+			}
+			return
+		}
 		if x.Cell != nil {
 			st.cells[x.Cell] = e.symbolic(st, x.Cell.Typ, x.Cell.Name+"_lh")
 			delete(e.inputCells, x.Cell)
+			e.forgetStandIns(st, x.Cell)
 		} else {
 			// not yet materialised: give it a fresh identity so that reads after the havoc do not see entry values
 			c := e.newCell(x.Elem, x.Name+"_lh")
